@@ -52,7 +52,8 @@ func init() {
 		},
 		Promises: func(core.Tier) map[string][]string {
 			return map[string][]string{"route": {"Snapshot+RestoreSnapshot", "Snapshot+RestoreFromReader", "SnapshotInTx+RestoreSnapshot", "SnapshotInTx+RestoreFromReader", "StreamToWriter+RestoreSnapshot", "StreamToWriter+RestoreFromReader"},
-				"porcupine": {"ok"}, "restore_reader": {"bytes.Reader", "data+EOF together", "half reads", "4096-byte chunks, EOF with the last", "single read with EOF"},
+				"porcupine": {"ok"}, "snapshot_path": {"path already holds an earlier snapshot"},
+				"restore_reader": {"bytes.Reader", "data+EOF together", "half reads", "4096-byte chunks, EOF with the last", "single read with EOF"},
 				"timeline_after_restore": {"round 0, start initialised", "round 0, start never requested", "round 0, start default on empty", "round 1, start never requested", "failing id function first"}}
 		},
 		MinCounters: func(core.Tier) map[string]int64 {
@@ -140,7 +141,15 @@ func c17Sequential(c *core.Ctx, idx int) {
 		route := []string{"Snapshot", "SnapshotInTx", "StreamToWriter"}[(idx+round)%3]
 		restoreCall := []string{"RestoreSnapshot", "RestoreFromReader"}[(idx/3+round)%2]
 		c.Cover("route", route+"+"+restoreCall)
+		// a third of the cases write both snapshots to the same path and leave the first one there
+		reusePath := idx%3 == 0 // routes: Snapshot in the first round, SnapshotInTx in the second
 		snapPath := e.Path + fmt.Sprintf(".snap-%d", round)
+		if reusePath {
+			snapPath = e.Path + ".snap"
+			if round == 1 {
+				c.Cover("snapshot_path", "path already holds an earlier snapshot")
+			}
+		}
 		var snapId string
 		var snapBytes []byte
 		switch route {
@@ -171,7 +180,9 @@ func c17Sequential(c *core.Ctx, idx int) {
 		}
 		if snapBytes == nil {
 			snapBytes, err = os.ReadFile(snapPath)
-			_ = os.Remove(snapPath)
+			if !reusePath || round == 1 {
+				_ = os.Remove(snapPath)
+			}
 			if err != nil {
 				c.Violationf("C17 cannot read snapshot file", nil, "%v", err)
 				return
